@@ -94,6 +94,10 @@ func checkReuseIdMatch(c *Ctx, lf *lockFacts) {
 					}
 				}
 			}
+			// the reply comes out of a poll helper that is handed the caller's id and writes it back
+			if hc, sum := pollHelperCall(rv[0]); hc != nil && sum.restores && sum.idIdx >= 0 && sum.idIdx < len(hc.Call.Args) && hc.Call.Args[sum.idIdx] == ssa.Value(orgRead) {
+				restored = true
+			}
 			if !restored {
 				bad = c.P.pos(instrPos(r))
 			}
@@ -971,6 +975,22 @@ func checkClientDoInKey(c *Ctx) {
 			}
 			if k, isF := loadedField(ci.Call.Args[0]); isF && strings.HasSuffix(k, ".Context.respOpt") {
 				return // the reply's OPT
+			}
+			// ... also while it is still a local of the function that builds it: a fresh newOpt() value that is
+			// returned / stored as the response OPT, not the query's own OPT (which lives in the query's Extra)
+			if cl, isCall := ci.Call.Args[0].(*ssa.Call); isCall {
+				if sc := staticCallee(cl); sc != nil && sc.Name() == "newOpt" {
+					toQuery := false
+					for _, r := range referrers(cl) {
+						if mi, ok := r.(*ssa.MakeInterface); ok {
+							_ = mi
+							toQuery = true // appended to a section as dns.RR
+						}
+					}
+					if !toQuery {
+						return
+					}
+				}
 			}
 			if f.Name() == "setDo" {
 				return // the helper itself
